@@ -18,6 +18,8 @@ require (
 	github.com/spf13/pflag v1.0.3 // indirect
 	github.com/yourbasic/radix v0.0.0-20180308122924-cbe1cc82e907 // indirect
 	golang.org/x/exp v0.0.0-20220722155223-a9213eeb770e // indirect
+	golang.org/x/net v0.0.0-20190620200207-3b0461eec859 // indirect
+	golang.org/x/text v0.3.0 // indirect
 	gonum.org/v1/gonum v0.6.2 // indirect
 )
 
